@@ -204,6 +204,8 @@ func (e *lcEnv) outageShutdown(mode, op, how string) {
 		opts = append(opts, quartz.WithBlockingExecution())
 	case "workers3":
 		opts = append(opts, quartz.WithWorkerLimit(3))
+	case "blocking+workers3":
+		opts = append(opts, quartz.WithBlockingExecution(), quartz.WithWorkerLimit(3))
 	}
 	s, err := quartz.NewStdScheduler(opts...)
 	must(err)
